@@ -10,7 +10,7 @@ import vlib
 META = {
     "level": "model_checking",
     "text": "TLC enumerates every add/remove sequence of Watermarks.tla within the cfg bounds (text/image/PDF x stamp/watermark x page "
-            "selections (meaning from the C31 model) x descriptions, one or two adds, then removal) together with the model state after "
+            "selections (meaning from the C31 model) x descriptions x flat/nested page tree, one or two adds, then removal) with the model state after "
             "each step; every sequence is replayed through the real API on marker documents with single and multiple content streams and "
             "the projected real state (watermarked pages, normalised page content, HasWatermarks) is compared step by step.",
     "note": "Trusted: Watermarks.tla/Sel.tla as the meaning of add/remove/selection; the Go projection (artifact marker in the decoded page "
@@ -53,7 +53,7 @@ def run(ctx):
             ctx.report(key, "%s; %d occurrences of this class (kind|single or multi content streams|T stamp, B watermark adds that hit the page) in this run"
                        % (m["what"], len(ms)), m)
         ev.cov(evaluations=n, distinct_nontrivial=summ["nontrivial"], traces_validated_against_impl=n,
-               rule="every behaviour of Watermarks.tla within the cfg bounds (1-2 adds: kind x onTop x selection x description, then a removal with "
+               rule="every behaviour of Watermarks.tla within the cfg bounds (document shape: flat or nested page tree x content stream pattern; 1-2 adds: kind x onTop x selection x description, then a removal with "
                     "one of the removal selections, then - if that was a partial removal - a removal without selection) is one case of %d steps on "
                     "average, each step replayed and projected; non-trivial = distinct sequences in which a page with more than one content stream "
                     "carries a watermark at some step" % (summ["steps"] // max(n, 1)),
